@@ -11,7 +11,7 @@ from dsim.world import substream
 PROPERTY = "C11"
 RULE = (
     "one run = a document with two identically built tables; every position-taking call (write, set_cell_style, set_cell_formatting, "
-    "set_cell_border) is sent to table 0 in row/column form and to table 1 in A1 or $A$1 form (lock-step twins, compared with each other "
+    "set_cell_border; the arguments after the position vary per op and are the same for both: style by name or object, seven format kinds, a side or a list of sides x stroke length omitted/1/2/3) is sent to table 0 in row/column form and to table 1 in A1 or $A$1 form (lock-step twins, compared with each other "
     "and with the grid model after every op, growth must be to exactly the needed size); bad positions (row/col in -3..-1, n, n+1, MAX, MAX+1; "
     "'A0'; for all five methods incl. cell(); both notations) must raise IndexError with the whole document unchanged afterwards; lower-case "
     "A1 must hit the same cell or raise IndexError; cell() in three notations must return the identical cell object; iter_rows/iter_cols over "
@@ -71,7 +71,7 @@ def gen(seed: int, tier: str, idx=None):
                 row, col = g.index(tm.nrows), g.index(tm.ncols)
             used.append((row, col, nota))
             g.emit({"op": "twin", "d": 0, "s": 0, "method": rng.choice(["write", "write", "write", "set_cell_style", "set_cell_border"]) if (row, col, nota) in used[:-1] else "write",
-                    "r": row, "c": col, "v": V.enc(g.value()), "nota": nota})
+                    "r": row, "c": col, "v": V.enc(g.value()), "nota": nota, "variant": rng.randrange(1000)})
         elif kind == "twin_other":
             method = rng.choice(["set_cell_style", "set_cell_border", "set_cell_formatting"])
             if method == "set_cell_formatting":
@@ -82,7 +82,7 @@ def gen(seed: int, tier: str, idx=None):
                 row, col = g.index(tm.nrows), g.index(tm.ncols)
             else:
                 row, col = tm.nrows + rng.randint(0, 2), min(999, tm.ncols + rng.randint(0, 2))
-            g.emit({"op": "twin", "d": 0, "s": 0, "method": method, "r": row, "c": col, "nota": rng.choice(["a1", "abs"])})
+            g.emit({"op": "twin", "d": 0, "s": 0, "method": method, "r": row, "c": col, "nota": rng.choice(["a1", "abs"]), "variant": rng.randrange(1000)})
         elif kind == "bad_pos":
             method = rng.choice(METHODS)
             if rng.random() < 0.5:
